@@ -58,7 +58,7 @@ def main():
         for (op, k, v) in script:
             variant += 1
             ev = dict(op=op, k=k, v=v, res=['ok'], regs=[], loaded=0, litems=0, nwritten=0)
-            if op in ('setitem', 'delitem', 'clear'):
+            if op in ('setitem', 'delitem', 'clear', 'insertu', 'popmin'):
                 pre = paths(t)
                 jar.log = []
                 keep = []           # keep registered objects alive so that id() stays unique
@@ -76,8 +76,26 @@ def main():
                                 t.update({rk: rv})
                             else:
                                 t.__setitem__(rk, rv)
-                    elif op == 'delitem':
+                    elif op == 'insertu':
+                        # a key that is there is left alone (and nothing is announced)
                         if is_set:
+                            t.add(rk)
+                        elif variant % 2:
+                            t.insert(rk, emb.val(v))
+                        else:
+                            t.setdefault(rk, emb.val(v))
+                    elif op == 'popmin':
+                        if is_set:
+                            t.pop()
+                        else:
+                            t.popitem()
+                    elif op == 'delitem':
+                        if is_set and variant % 3 == 0:
+                            n0 = len(t)
+                            t.discard(rk)
+                            if len(t) == n0:
+                                raise KeyError(rk)      # (the model's vocabulary for "was not there, nothing happened")
+                        elif is_set:
                             t.remove(rk)
                         elif variant % 2:
                             del t[rk]
@@ -125,6 +143,8 @@ def main():
         # every history of the given length over the alphabet (small scope, exhaustive)
         alpha = [('setitem', k, 1) for k in range(1, nk + 1)] + [('delitem', k, 0) for k in range(1, nk + 1)] + \
                 [('commit', 0, 0), ('abort', 0, 0)]
+        if job.get('extra_ops'):
+            alpha += [('insertu', k, 1 if is_set else 2) for k in range(1, nk + 1)] + [('popmin', 0, 0)]
         L = job['length']
         part, nparts = job.get('part', 0), job.get('nparts', 1)
         n = 0
@@ -162,6 +182,13 @@ def main():
                 if r > 0.985:
                     script.append(('clear', 0, 0))
                     present = set()
+                elif present and r > 0.94:
+                    script.append(('popmin', 0, 0))
+                    present.discard(min(present))
+                elif r > 0.86:
+                    k = rng.randint(1, nk)
+                    script.append(('insertu', k, rng.randint(1, nv)))
+                    present.add(k)
                 elif present and rng.random() > bias:
                     k = rng.choice(sorted(present)) if rng.random() < 0.9 else rng.randint(1, nk)
                     script.append(('delitem', k, 0))
